@@ -84,9 +84,16 @@ def r02c(F):
 	fn = FC + 'revoke_and_ack'
 	fu = F.func(fn)
 	ex = Expr(fu)
-	rl = [l for l, nm in fu.vars.items() if nm == 'release_monitor']
+	# the release flag = the bool local that is `false` on one path and `!<bool parameter>` (the hold flag) on the other
+	rl = []
+	for l in range(fu.argc + 1, len(fu.locals)):
+		ds_ = fu.whole_defs(l)
+		if len(ds_) >= 2 and (fu.locals[l].get('ty') or '') == 'bool':
+			es = [ex.of_rvalue(d[3]) for d in ds_]
+			if any(e[0] == 'const' and e[1] == 0 for e in es) and any(e[0] == 'un' and e[1] == 'Not' and e[2][0] == 'local' and 1 <= e[2][1] <= fu.argc for e in es):
+				rl.append(l)
 	if len(rl) != 1:
-		return out + [Result('02.c', False, 'anchor:release_monitor', 'revoke_and_ack: expected one local release_monitor, found %d' % len(rl), where=F.where(fn))]
+		return out + [Result('02.c', False, 'anchor:release-flag', 'revoke_and_ack: expected one release flag of the shape `<cond> && !hold_mon_update`, found %d' % len(rl), where=F.where(fn))]
 	rl = rl[0]
 	acts = set()
 	for bi, si, c in ret_assignments(fu):
@@ -103,7 +110,7 @@ def r02c(F):
 		e = ex.of_rvalue(d[3])
 		if not (e[0] == 'const' and e[1] == 0):
 			nonfalse.append((d[0], e))
-	ok = bool(nonfalse) and all(e[0] == 'un' and e[1] == 'Not' and leaf_key(e[2]) == 'hold_mon_update' for b, e in nonfalse)
+	ok = bool(nonfalse) and all(e[0] == 'un' and e[1] == 'Not' and e[2][0] == 'local' and 1 <= e[2][1] <= fu.argc and (fu.locals[e[2][1]].get('ty') or '') == 'bool' for b, e in nonfalse)
 	out.append(Result('02.c', ok, ('ok:' if ok else 'shape:') + 'release_monitor-def', 'release_monitor can only become %s (expected !hold_mon_update under blocked_monitor_updates.is_empty())' % [expr_str(e) for b, e in nonfalse], len(defs), where=F.where(fn)))
 	ie = [b for b in fu.call_blocks(lambda p: p == 'alloc::vec::Vec::is_empty') if 'blocked_monitor_updates' in expr_str(ex.of_operand(fu.blocks[b]['t'][2]['args'][0]))]
 	out += P4_guarded(F, '02.c', fu, {b for b, e in nonfalse}, call_decisions(fu, ie, 'bool'), True, 'blocked_monitor_updates.is_empty()')
